@@ -9,9 +9,9 @@ VERIF = os.path.dirname(os.path.dirname(os.path.abspath(__file__)))
 REPO = os.environ.get('ANEMO_REPO', '/repo')
 CACHE = os.path.join(VERIF, '.cache')
 SCRATCH_ROOT = os.environ.get('VERIF_SCRATCH', '/var/tmp/anemo-verif')
-EVIDENCE_DIR = os.path.join(VERIF, 'evidence')
+EVIDENCE_DIR = os.environ.get('VERIF_EVIDENCE_DIR') or os.path.join(VERIF, 'evidence')     # the matrix tools redirect it so that runs on patched trees do not overwrite the evidence of /repo
 KNOWN_FINDINGS = os.path.join(VERIF, 'known_findings.json')
-REPLAY_DIR = os.path.join(VERIF, 'replays')
+REPLAY_DIR = os.environ.get('VERIF_REPLAY_DIR') or os.path.join(VERIF, 'replays')
 
 OFFLINE_ENV = {'CARGO_NET_OFFLINE': 'true'}
 
